@@ -791,6 +791,10 @@ func (x *Exec) ghostSeq(st *State, v Val, kind string) (string, bool) {
 			return x.ghostSeq(st, u.Payload, kind)
 		}
 	case PtrV:
+		if u.Nil && u.Elem != nil && ghostFor(u.Elem) != "" {
+			// spec expressions are total: the stream of a nil pointer is unspecified
+			u = PtrV{Ref: "0", RootSort: x.w.SortOf(u.Elem), Elem: u.Elem}
+		}
 		if u.Ref != "" && len(u.Path) == 0 {
 			switch ghostFor(u.Elem) {
 			case "bytes.Buffer":
